@@ -41,6 +41,7 @@ func VerifH_SYS_C09() {
 	stopped := false
 	stopCalled := false
 	dialsAtStop := -1
+	dialsAtReturn := -1
 	if stopKind != 0 {
 		go func() {
 			if stopAny {
@@ -56,6 +57,9 @@ func VerifH_SYS_C09() {
 			switch stopKind {
 			case 1:
 				_ = cli.Disconnect(context.Background())
+				verifLock()
+				dialsAtReturn = b.dialStarts
+				verifUnlock()
 			case 2:
 				cancel()
 			case 3:
@@ -78,8 +82,17 @@ func VerifH_SYS_C09() {
 		if stopCalled {
 			verifAssert(stopped, "C09.disconnect_returns")
 		}
+		// A stop issued while the system is idle finds the loop parked: not one more dial.  A stop issued at an
+		// arbitrary scheduling point may coincide with a back-off timer that has already fired: the iteration
+		// under way may still dial once (it was decided before the stop), nothing after that, and nothing at
+		// all once Disconnect has returned.
+		slack := 0
+		if stopAny {
+			slack = 1
+		}
 		if stopKind == 1 && stopped {
-			verifAssert(b.dialStarts == dialsAtStop, "C09.no_dial_after_disconnect")
+			verifAssert(b.dialStarts <= dialsAtStop+slack, "C09.no_dial_after_disconnect")
+			verifAssert(b.dialStarts == dialsAtReturn, "C09.no_dial_after_disconnect_returned")
 		}
 		if stopKind >= 2 && stopped {
 			verifAssert(connectReturned, "C09.connect_returns_after_cancel")
@@ -89,7 +102,7 @@ func VerifH_SYS_C09() {
 		}
 		if stopKind >= 2 && stopped && !connected {
 			// cancelled before the first connection succeeded: never dials again
-			verifAssert(b.dialStarts == dialsAtStop, "C09.no_dial_after_cancel_before_first_connection")
+			verifAssert(b.dialStarts <= dialsAtStop+slack, "C09.no_dial_after_cancel_before_first_connection")
 		}
 		// every connection begins with exactly one CONNECT carrying the same id and options
 		for ci := range b.conns {
